@@ -16,7 +16,7 @@ sys.path.insert(0, '/verif')
 os.environ.setdefault('PYTHONHASHSEED', '0')
 
 DRIVERS = {
-    'C01': ('replayers.sched', dict(dynamic=False)),
+    'C01': ('replayers.sched', dict(dynamic='both')),
     'C02': ('replayers.sched', dict(dynamic='both')),
     'C06': ('replayers.sched', dict(dynamic=False)),
     'C05': ('replayers.sched', dict(dynamic=True)),
